@@ -10,6 +10,10 @@ PASS = {"kind": "pass"}
 CANARY = {"kind": "canary"}
 
 
+def MAYPANIC(*allow):
+    return {"kind": "maypanic", "allow": list(allow)}
+
+
 def PANIC(*allow):
     return {"kind": "panic", "allow": list(allow)}
 
@@ -287,6 +291,40 @@ for sh, K, V in (("u8", "u8", "u8"),):
         profile="both", expect=PANIC(*FULL_PANIC), contracts=True, kind="contract", backend="kani-contract",
         attrs=["#[kani::proof_for_contract(Map::<%s, %s, {N}>::insert_ii)]" % (K, V)],
         fn="Map::insert_ii under requires(full && key absent) modifies() - nothing is written before the panic", shape="S_" + sh)
+
+# ------------------------------------------------------------------ C13 / C18 get_disjoint
+SORT_CUT = "#[kani::stub(core::slice::sort::unstable::ipnsort, c13::ipnsort_unreachable)]"
+
+
+def NJ(pairs):
+    return [{"N": n, "J": j} for n, j in pairs]
+
+
+add("c13_disjoint_u8", "c13::h_disjoint::<u8, {N}, {J}>(false)", ["C13"], NJ([(0, 1), (1, 1), (2, 1), (1, 2), (2, 2), (2, 3)]), NJ([(3, 2), (3, 3), (2, 4), (3, 4)]),
+    unwind="max(N,J)+2", attrs=[SORT_CUT], fn="Map::get_disjoint_mut (pairwise different keys)", shape="S_u8", timeout="40m")
+add("c13_disjoint_id", "c13::h_disjoint::<Key, {N}, {J}>(false)", ["C13"], NJ([(2, 2)]), NJ([(3, 3)]),
+    unwind="max(N,J)+2", attrs=[SORT_CUT], fn="Map::get_disjoint_mut (pairwise different keys)", shape="S_id", timeout="40m")
+add("c18_disjoint_unchecked_u8", "c13::h_disjoint::<u8, {N}, {J}>(true)", ["C18"], NJ([(1, 1), (2, 1), (1, 2), (2, 2)]), NJ([(3, 2), (2, 3), (3, 3)]),
+    unwind="max(N,J)+2", attrs=[SORT_CUT], fn="Map::get_disjoint_unchecked_mut (documented precondition: pairwise different keys)", shape="S_u8", timeout="40m")
+add("c13_disjoint_empty", "c13::h_disjoint_empty::<{N}>()", ["C13"], N_(0, 2), N_(0, 3), fn="Map::get_disjoint_mut with zero keys", shape="S_u8")
+add("c13_overlap", "c13::h_disjoint_overlap::<{N}, {J}>()", ["C13"], NJ([(1, 2), (2, 2), (2, 3)]), NJ([(3, 3), (2, 4), (3, 4)]), unwind="max(N,J)+2", profile="both",
+    attrs=[SORT_CUT], expect=PANIC(*OVERLAP_PANIC), fn="Map::get_disjoint_mut with two equal present keys (must panic)", shape="S_u8")
+
+# ------------------------------------------------------------------ C17 lawless Eq
+LAW_OK = FULL_PANIC + OVERLAP_PANIC + INDEX_PANIC
+for i, op in enumerate(("insert", "insert_key_value", "checked_insert", "remove", "remove_entry", "lookups", "entry_or_insert", "retain", "entry_remove")):
+    add("c17_" + op, "c17::h_law_map::<{N}>(%d)" % i, ["C17"], N_(1, 2), N_(1, 2, 3), profile="both" if i in (0, 6) else "debug", expect=MAYPANIC(*LAW_OK),
+        fn="Map::%s under arbitrary outcomes of every key comparison" % op, shape="S_law")
+add("c17_eq", "c17::h_law_eq::<{N}, {M}>()", ["C17"], NM([(1, 1), (2, 2)]), NM([(2, 2), (3, 2), (3, 3)]), unwind="max(N,M)+2", expect=MAYPANIC(*LAW_OK),
+    fn="PartialEq::eq for Map under lawless ==", shape="S_law")
+add("c17_from_iter", "c17::h_law_from_iter::<{N}, {L}>()", ["C17"], [{"N": 1, "L": 2}, {"N": 2, "L": 3}], [{"N": 2, "L": 4}, {"N": 3, "L": 4}], unwind="max(N,L)+2",
+    expect=MAYPANIC(*LAW_OK), fn="FromIterator for Map under lawless ==", shape="S_law")
+add("c17_disjoint", "c17::h_law_disjoint::<{N}, {J}>()", ["C17"], NJ([(1, 2), (2, 2), (3, 2)]), NJ([(2, 3), (3, 3), (4, 3)]), unwind="max(N,J)+2", profile="both",
+    attrs=[SORT_CUT], expect=MAYPANIC(*LAW_OK), fn="Map::get_disjoint_mut under lawless ==", shape="S_law", timeout="40m")
+for i, op in enumerate(("insert", "replace", "remove", "take", "contains_get", "predicates", "union", "intersection", "difference", "symmetric_difference", "sub")):
+    add("c17_set_" + op, "c17::h_law_set::<{N}, {M}>(%d)" % i, ["C17"], (NM([(1, 1)]) if i in (6, 7, 8) else NM([(1, 1), (2, 1)]) if i in (5, 10) else []) if i >= 5 else NM([(1, 0), (2, 0)]),
+        NM([(2, 1), (2, 2)]) if i >= 5 else NM([(2, 0), (3, 0)]), unwind="N+M+3" if 6 <= i <= 9 else "max(N,M)+2", expect=MAYPANIC(*LAW_OK),
+        fn="Set::%s under lawless ==" % op, shape="S_law", timeout="30m")
 
 
 def units_for(prop):
